@@ -814,3 +814,77 @@ def rule_lone_vdata_listed(ctx):
                 ctx.violated("LONEVS", key, f.where(line), "a lone Vdata of a reserved class is left out of hdiff's object list: the Attr0.0 Vdatas that carry Vdata and Vgroup attributes are never compared")
     ctx.floor("LONEVS", 1, n, "(reserved-class skips in hdiff's Vdata listing)")
     return n
+
+
+def rule_double_parsed_as_double(ctx):
+    """WIDEPARSE (C19): hdfimport reads 64-bit TEXT input with `fscanf("%le", double *)`.  A value destined for a float64 is never
+    produced by parsing into a float32 and widening: what is stored through a `float64 *` parameter does not come from a
+    float32 local.  Otherwise 0.1 is imported as 0.10000000149011612 and 7e100 as inf while the tool exits 0."""
+    prog = ctx.prog
+    n = 0
+    for f in prog.funcs:
+        if not f.rel.startswith("mfhdf/hdfimport/"):
+            continue
+        p64 = {(p[0] if isinstance(p, (list, tuple)) else p.get("name")) for p in f.params if "float64 *" in ((p[1] if isinstance(p, (list, tuple)) else p.get("type")) or "") or "double *" in ((p[1] if isinstance(p, (list, tuple)) else p.get("type")) or "")}
+        if not p64:
+            continue
+        f32 = set()
+        for _b, _i, _s, x in f.nodes(True):
+            if x[0] == "decl":
+                for d in x[1]:
+                    if (d[1] or "").strip() in ("float32", "float"):
+                        f32.add(d[0])
+        for p in sorted(p64):
+            n += 1
+            key = "WIDEPARSE:%s:%s" % (f.name, p)
+            bad = None
+            for _b, _i, s, x in f.nodes(True):
+                if x[0] == "asg" and x[1] == "=" and kind(strip(x[2])) == "deref" and kind(strip(strip(x[2])[1])) == "var" and strip(strip(x[2])[1])[1] == p:
+                    if any(y[0] == "var" and y[1] in f32 for y in walk(x[3], True)):
+                        bad = s.get("l", f.line)
+            if bad:
+                ctx.violated("WIDEPARSE", key, f.where(bad), "the value stored through the float64 pointer `%s` is a widened float32: everything beyond single precision of the input is lost" % p)
+            else:
+                ctx.holds("WIDEPARSE", key, f.where(), "nothing stored through `%s` comes from a float32 local" % p, nontrivial=True)
+    ctx.floor("WIDEPARSE", 1, n, "(routines that deliver a float64 through a pointer)")
+    return n
+
+
+def rule_grow_init_from_count(ctx):
+    """GROWINIT (C19, C18): the tools' object tables grow by doubling (`realloc`) and then initialise the *new* slots:
+    `for (i = table->nobjs; i < table->size; i++) ..`.  The loop starts at the number of slots in use - the plain count field,
+    no arithmetic: started one earlier it wipes the last entry that was just filled, and the object in that slot (the 20th,
+    40th, ..) is compared as "not supported" and contributes no difference."""
+    from .rules_loops import loops_of
+    prog = ctx.prog
+    n = 0
+    for f in prog.funcs:
+        if not f.rel.startswith(("mfhdf/hdiff/", "mfhdf/hrepack/", "mfhdf/hdp/")):
+            continue
+        if not any(c[1] in ("realloc", "HDrealloc") for _b, _i, _s, c in f.calls()):
+            continue
+        k = 0
+        for lp, st in loops_of(f):
+            if lp[0] != "for" or lp[1] is None or lp[2] is None:
+                continue
+            c = strip(lp[2])
+            if not (kind(c) == "bin" and c[1] == "<" and kind(strip(c[3])) == "mem" and strip(c[3])[2] in ("size", "max", "alloc")):
+                continue
+            init = None
+            for x in walk(lp[1], True):
+                if x[0] == "asg" and x[1] == "=":
+                    init = x[3]
+            if init is None:
+                continue
+            k += 1
+            n += 1
+            key = "GROWINIT:%s#%d" % (f.name, k)
+            line = lp[-3] if isinstance(lp[-3], int) else f.line
+            if kind(strip(init)) == "mem":
+                ctx.holds("GROWINIT", key, f.where(line), "the new slots are initialised from `%s`" % render(strip(init))[:30], nontrivial=True)
+            elif is_int(init):
+                ctx.holds("GROWINIT", key, f.where(line), "the table is initialised from a constant index", nontrivial=False)
+            else:
+                ctx.violated("GROWINIT", key, f.where(line), "after the table has grown, the initialisation of the new slots starts at `%s` instead of the count of used slots: it wipes an entry that is in use" % render(strip(init))[:30])
+    ctx.floor("GROWINIT", 3, n, "(initialisations of new slots after a table has grown)")
+    return n
